@@ -561,6 +561,8 @@ class Interp:
             setd(v)
             return target
         if path == 'core::mem::ManuallyDrop::<T>::new' and args:
+            if args[0][0] in ('vec', 'fresh'):
+                p.env[('wrapped', args[0][1])] = True
             setd(('md', args[0]))
             return target
         if path in ('core::mem::ManuallyDrop::<T>::into_inner', 'core::mem::ManuallyDrop::<T>::take') and args:
@@ -589,7 +591,8 @@ class Interp:
                 if name == 'len':
                     setd(('veclen', recv))
                     return target
-                p.ev('vec_method', name=name, vec=recv, args=[self.unwrap_md(self.deref_arg(p, a)) for a in args[1:]], gargs=[ty_key(strip_regions(g)) for g in gargs], ln=ln, fn=fn.dp, block=b, unwind=unwind)
+                p.ev('vec_method', name=name, vec=recv, args=[self.unwrap_md(self.deref_arg(p, a)) for a in args[1:]], gargs=[ty_key(strip_regions(g)) for g in gargs], ln=ln, fn=fn.dp, block=b, unwind=unwind,
+                     unwrapped=not p.env.get(('wrapped', recv[1]), False))
                 if name == 'clone' and trait == 'core::clone::Clone':
                     oid = self.new_obj(p)
                     nv = ('fresh', oid, recv[2], 'clone')
